@@ -258,7 +258,10 @@ def buildnone_flags(ctx, rule, only=None):
                 if g[0] == "cmp" and g[1] == "in" and g[2] == OBJ and g[3][0] == "tuple" and N.NONE in g[3][1]:
                     return True
             return any(x[0] == "ite" and x[1] == is_none for e in p.events for v in e.a.values() if isinstance(v, tuple) for x in N.walk(v))
-        if uses and not (ci.name in ("Const", "Default") and any(p.returns and handles_none(p) for p in ps)):
+        # obj that is merely handed back (Peek, Pass, Terminated ...) is not consumed either
+        consumed = any(isinstance(v, tuple) and N.contains(v, OBJ) for p in ps for e in p.events if e.kind not in ("RETURN", "EVAL")
+                       for k, v in e.a.items() if k not in ("res",))
+        if uses and consumed and not (ci.name in ("Const", "Default") and any(p.returns and handles_none(p) for p in ps)):
             continue
         ini = M.resolve(ci.name, "__init__")
         fb = [e["value"] for p in (paths_of(ctx, ini, ci.name) if ini is not None else []) for e in p.events if e.kind == "SELFWRITE" and e["attr"] == "flagbuildnone"]
@@ -334,6 +337,21 @@ def tunnel_checks(ctx, rule):
     ok = bool(with_level) and bool(without) and all(N.mk_cmp("is not", lvl, N.NONE) in flat(p) for p in with_level) and \
         all(N.mk_cmp("is", lvl, N.NONE) in flat(p) and not any(c == lvl or c == N.mk_not(lvl) for c in flat(p)) for p in without)
     ctx.ob(rule, fe, ok, "Compressed hands the level to the codec whenever one was given (tested with `is None`, so level 0 = stored is honoured)", key="Compressed level")
+    # the codec module is chosen by the documented table: zlib->zlib, gzip->gzip, bzip2->bz2, lzma->lzma, anything else->codecs
+    fi_i, pi = own_method_paths(ctx, "Compressed", "__init__")
+    table = {"zlib": "zlib", "gzip": "gzip", "bzip2": "bz2", "lzma": "lzma"}
+    got = {}
+    other = set()
+    for p in pi:
+        libs = [e["value"] for e in p.events if e.kind == "SELFWRITE" and e["attr"] == "lib"]
+        eqs = [c[3][2] for c in p.guards() if c[0] == "cmp" and c[1] == "==" and N.is_const(c[3]) and c[2] in (("param", "encoding"), N.selfattr("encoding"))]
+        for lib in libs:
+            name = lib[1] if lib[0] == "module" else N.show(lib)
+            if eqs:
+                got[eqs[-1]] = name
+            else:
+                other.add(name)
+    ctx.ob(rule, fi_i, got == table and other == {"codecs"}, "Compressed picks its codec module by the documented table (found %s, otherwise %s)" % (got, sorted(other)), key="Compressed codec table")
     sel = lambda c: c[0] == "cmp" and c[1] in ("in", "not in") and c[2] == N.selfattr("encoding")
     gdd = {c for p in pd if p.returns and any(e.kind == "CALL" and e["func"][2] == "decompress" for e in p.events) for c in p.guards() if sel(c)}
     ge = {c for p in pe if p.returns and any(e.kind == "CALL" and e["func"][2] == "compress" for e in p.events) for c in p.guards() if sel(c)}
@@ -450,7 +468,7 @@ def run(ctx):
     short = [p for p in pe if p.returns and p.retval == N.const(b"")]
     ctx.ob("C01.R4", fe, all(N.mk_cmp("==", OBJ, N.const("")) in p.guards() for p in short), "the only build-side shortcut is the empty string (an encoded empty string may carry a BOM)", key="StringEncoded shortcut")
     tunnel_checks(ctx, "C01.R4")
-    ctx.floor("C01.R4", 18)
+    ctx.floor("C01.R4", 19)
 
     # ---------------------------------------------------------------- R5
     fi, paths = own_method_paths(ctx, "Rebuild", "_build")
@@ -536,6 +554,7 @@ def run(ctx):
     interval.leb128_obligations(ctx, "C01.R7")
     from . import C10_helpers
     C10_helpers.zigzag(ctx, "C01.R7")
+    C10_helpers.varint_parse_form(ctx, "C01.R7")
     C03.unit_table_check(ctx, "C01.R7")
     fi, paths = own_method_paths(ctx, "NullTerminated", "_parse")
     C08.null_terminated(ctx, fi, paths, "C01.R7")
